@@ -645,47 +645,89 @@ def loops_as_comprehensions(node: ast.FunctionDef) -> ast.FunctionDef:
 
 
 class DesugarMatch(ast.NodeTransformer):
-    """`match subject:` with literal / or-of-literal / wildcard patterns (and optional guards) -> the if / elif / else chain that compares the
-    subject with == (what such a match means for str, int and None subjects). Anything else (captures, class and sequence patterns) is left
-    alone, so that the analyses that meet it say that they do not model it."""
+    """`match subject:` with literal / or / wildcard / capture patterns, guards, and fixed-length sequence patterns against a tuple display
+    -> the if / elif / else chain that compares with == (what such a match means for str, int and None subjects), captured names bound at the
+    head of the branch. Anything else (class, mapping and star patterns) is left alone, so that the analyses that meet it say that they do not
+    model it."""
 
     counter = 0
 
     def visit_Match(self, node: ast.Match) -> ast.AST:  # type: ignore[name-defined]
         self.generic_visit(node)
 
-        def test_of(pat: ast.AST, subj: ast.expr) -> ast.expr | None | bool:
+        def test_of(pat: ast.AST, subj: ast.expr, binds: list) -> ast.expr | None | bool:
+            """The test a pattern makes on `subj` (True: always matches, None: a pattern outside this reading); captured names go to `binds`."""
             if isinstance(pat, ast.MatchValue):
                 return ast.Compare(left=subj, ops=[ast.Eq()], comparators=[pat.value])
             if isinstance(pat, ast.MatchSingleton):
                 return ast.Compare(left=subj, ops=[ast.Is()], comparators=[ast.Constant(value=pat.value)])
             if isinstance(pat, ast.MatchOr):
-                parts = [test_of(q, subj) for q in pat.patterns]
+                parts = [test_of(q, subj, binds) for q in pat.patterns]
                 if any(q is None for q in parts):
                     return None
                 if any(q is True for q in parts):
                     return True
                 return ast.BoolOp(op=ast.Or(), values=parts)  # type: ignore[arg-type]
-            if isinstance(pat, ast.MatchAs) and pat.pattern is None and pat.name is None:
-                return True
+            if isinstance(pat, ast.MatchAs):
+                inner: ast.expr | None | bool = True if pat.pattern is None else test_of(pat.pattern, subj, binds)
+                if inner is None:
+                    return None
+                if pat.name is not None:
+                    binds.append((pat.name, subj))
+                return inner
+            if isinstance(pat, ast.MatchSequence) and isinstance(subj, ast.Tuple) and len(pat.patterns) == len(subj.elts) and \
+                    not any(isinstance(q, ast.MatchStar) for q in pat.patterns):
+                parts2 = [test_of(q, e_, binds) for q, e_ in zip(pat.patterns, subj.elts)]
+                if any(q is None for q in parts2):
+                    return None
+                real = [q for q in parts2 if q is not True]
+                if not real:
+                    return True
+                return real[0] if len(real) == 1 else ast.BoolOp(op=ast.And(), values=real)  # type: ignore[arg-type,return-value]
             return None
 
+        class _Subst(ast.NodeTransformer):
+            def __init__(self, m: dict):
+                self.m = m
+
+            def visit_Name(self, n: ast.Name) -> ast.AST:
+                return self.m[n.id] if isinstance(n.ctx, ast.Load) and n.id in self.m else n
+
         DesugarMatch.counter += 1
-        simple = isinstance(node.subject, (ast.Name, ast.Constant))
-        name = node.subject if simple else ast.Name(id=f"_match_subject_{DesugarMatch.counter}", ctx=ast.Load())
-        out: list[ast.stmt] = [] if simple else [ast.Assign(targets=[ast.Name(id=name.id, ctx=ast.Store())], value=node.subject)]  # type: ignore[union-attr]
+        subject = node.subject
+        out: list[ast.stmt] = []
+        if isinstance(subject, ast.Tuple):  # match (a, b): each element is evaluated once, in order
+            elts = []
+            for k, e_ in enumerate(subject.elts):
+                if isinstance(e_, (ast.Name, ast.Constant)):
+                    elts.append(e_)
+                else:
+                    nm = f"_match_subject_{DesugarMatch.counter}_{k}"
+                    out.append(ast.Assign(targets=[ast.Name(id=nm, ctx=ast.Store())], value=e_))
+                    elts.append(ast.Name(id=nm, ctx=ast.Load()))
+            name: ast.expr = ast.Tuple(elts=elts, ctx=ast.Load())
+        elif isinstance(subject, (ast.Name, ast.Constant)):
+            name = subject
+        else:
+            name = ast.Name(id=f"_match_subject_{DesugarMatch.counter}", ctx=ast.Load())
+            out.append(ast.Assign(targets=[ast.Name(id=name.id, ctx=ast.Store())], value=subject))
         chain: ast.If | None = None
         last: ast.If | None = None
         tail: list[ast.stmt] = []
+        import copy as _copy
+
         for case in node.cases:
-            t = test_of(case.pattern, name)
+            binds: list = []
+            t = test_of(case.pattern, name, binds)
             if t is None:
                 return node
-            if t is True and case.guard is None:
-                tail = case.body
+            pre = [ast.Assign(targets=[ast.Name(id=b, ctx=ast.Store())], value=_copy.deepcopy(v)) for b, v in binds]
+            guard = _Subst({b: v for b, v in binds}).visit(_copy.deepcopy(case.guard)) if case.guard is not None and binds else case.guard
+            if t is True and guard is None:
+                tail = pre + case.body
                 break
-            cond = case.guard if t is True else (t if case.guard is None else ast.BoolOp(op=ast.And(), values=[t, case.guard]))
-            new = ast.If(test=cond, body=case.body, orelse=[])
+            cond = guard if t is True else (t if guard is None else ast.BoolOp(op=ast.And(), values=[t, guard]))
+            new = ast.If(test=cond, body=pre + case.body, orelse=[])
             if chain is None:
                 chain = new
             else:
